@@ -242,7 +242,11 @@ def rule_DELEG(ctx):
         r.ok('bytes guard', {'instance': gb.key, 'guard': norm(g.test)})
     tf = m.funcs.get('bits:Bits.tofile')
     writes = [x for x in own_walk(tf.node) if isinstance(x, ast.Call) and isinstance(x.func, ast.Attribute) and x.func.attr == 'write']
-    if not writes or not all('tobytes()' in ast.unparse(w) for w in writes):
+    def exact(w):
+        a = w.args[0] if w.args else None
+        return isinstance(a, ast.Call) and isinstance(a.func, ast.Attribute) and a.func.attr == 'tobytes' and not a.args \
+            and isinstance(a.func.value, ast.Name)
+    if not writes or not all(exact(w) for w in writes):
         r.fail(tf.key, 'tofile writes tobytes()', 'tofile must write exactly the tobytes() of each chunk', loc=tf.loc())
     else:
         r.ok('tofile writes tobytes')
